@@ -69,6 +69,7 @@ type Obj struct {
 	Spare   *Term      // kBuffer: spare capacity behind the content (symbolic, >= 0), valid for SpareEp
 	SpareEp int
 	eShared bool // E is shared with another state's copy of this object: ownE() before writing an element
+	Pool    []Value // sync.Pool: the values Put back so far (most recent last); never mutated in place
 }
 
 type Frame struct {
